@@ -10,7 +10,7 @@ every partition of a population over members is not decided.
 import ast
 
 from ..astutil import call_simple_name, exc_name, guard_chain, names_in, pm, pmall, returns_of, short
-from ..cfg import cfg_of, node_calls
+from ..cfg import ReachingDefs, cfg_of, node_calls
 from ..forward import flow_of
 from ..loader import AnalysisError, FunctionInfo, body_walk, norm, walk_no_nested
 from ..report import key
@@ -35,6 +35,9 @@ def run(ctx):
     ctx.do(rule_newest)
     ctx.do(rule_navigation)
     ctx.do(rule_delegation)
+    from .pitfalls import rule_groupby_sorted, rule_single_use_iterators
+    ctx.do(rule_groupby_sorted, "C18.iterator-pitfalls", ("stix2.datastore", "stix2.environment", "stix2.utils"))
+    ctx.do(rule_single_use_iterators, "C18.iterator-pitfalls", ("stix2.datastore", "stix2.environment", "stix2.utils"))
     from .hidden_state import rule_no_hidden_state
     ctx.do(rule_no_hidden_state, "C18.history-independence")
 
@@ -152,7 +155,49 @@ def rule_dedup(ctx):
     run.check(ok, R, key(dd.module.relpath, dd.qualname, "key-is-id-and-version"), "deduplicate() does not key on (id, modified-or-created)",
               file=dd.module.relpath, line=dd.node.lineno, function=dd.qualname, expected="unique[(id, modified or created)] = obj",
               found=short(dd.node, 200))
-    run.floor(R, 5)
+    # the version component of the key is the stored value itself: a conversion with a precision argument (or any other
+    # re-assignment) merges versions that differ below that precision
+    g_ = cfg_of(dd)
+    rd_ = ReachingDefs(g_, dd.all_param_names())
+    stores = [a for a in body_walk(dd.node) if isinstance(a, ast.Assign) and isinstance(a.targets[0], ast.Subscript)
+              and isinstance(a.targets[0].slice, ast.Tuple) and len(a.targets[0].slice.elts) == 2]
+    okv = bool(stores)
+    foundv = []
+    for a in stores:
+        ve = a.targets[0].slice.elts[1]
+        if isinstance(ve, ast.Name):
+            defs = [v for _dn, v in rd_.reaching(g_.node_of(a), ve.id)]
+            foundv += [norm(v) if isinstance(v, ast.AST) else str(v) for v in defs]
+            if not (len(defs) == 1 and isinstance(defs[0], ast.BoolOp) and all(
+                    isinstance(x, ast.Call) and isinstance(x.func, ast.Attribute) and x.func.attr == "get" for x in defs[0].values)):
+                okv = False
+        else:
+            okv = False
+    run.check(okv, R, key(dd.module.relpath, dd.qualname, "version-key-as-stored"),
+              "the version part of the de-duplication key is transformed before use: versions of one object that differ below "
+              "the precision of that transformation collapse into one (all_versions / query / relationships through a composite "
+              "lose them)", file=dd.module.relpath, line=dd.node.lineno, function=dd.qualname,
+              expected="key = (obj['id'], obj.get('modified') or obj.get('created')) unchanged", found=foundv)
+    # no answer of a source is ever collapsed by id alone: (id, version) is the identity of a stored object
+    for fi in sorted(prog.functions.values(), key=lambda f: f.id):
+        if not fi.module.name.startswith(("stix2.datastore", "stix2.environment")) or fi.module.relpath.startswith("stix2/test"):
+            continue
+        if fi.name not in ("relationships", "related_to", "all_versions", "query", "creator_of"):
+            continue
+        for x in body_walk(fi.node):
+            bad = None
+            if isinstance(x, ast.DictComp) and isinstance(x.value, ast.Name) and norm(x.key) in (
+                    "%s['id']" % x.value.id, "%s.id" % x.value.id, "%s.get('id')" % x.value.id):
+                bad = x
+            if isinstance(x, ast.Assign) and isinstance(x.targets[0], ast.Subscript) and isinstance(x.value, ast.Name) \
+                    and norm(x.targets[0].slice) in ("%s['id']" % x.value.id, "%s.id" % x.value.id):
+                bad = x
+            if bad is not None:
+                run.violation(R, key(fi.module.relpath, fi.qualname, "collapsed-by-id"),
+                              "stored objects are collapsed by id alone: every version but one of a relationship / object held in "
+                              "several versions disappears from the answer", file=fi.module.relpath, line=bad.lineno,
+                              function=fi.qualname, expected="identity of a stored object is (id, version)", found=short(bad))
+    run.floor(R, 6)
 
 
 def newest_idiom(fi, prog):
